@@ -234,3 +234,6 @@ class RereadMachine(HistoryMachine):
 def parts(tier):
     return [HypPart('sequential-read', G.physical_files(), check, 1600, 40000),
             MachinePart('reread-history', RereadMachine, engine.replay_machine_case(reread_start, reread_step), 500, 10000, steps=8)]
+
+
+RULE += '  Added after the seeding rounds: encrypted segments with encryption packets, with arbitrary (cipher) pad bytes and with every attribute bit set; storage unit label numbers padded with mixed zeros and blanks; the reader is handed a file object positioned at start / end / middle / byte 1.'
